@@ -102,8 +102,8 @@ Definition KQo (se sl sp : standin) : KOps (option Q) :=
 (* comparisons of option-Q arrays with observed values *)
 Definition oq_eqb (a : option Q) (b : Q) : bool :=
   match a with Some x => qeqb x b | None => false end.
-Definition ovec_eqb (a : list (option Q)) (b : vec) : bool := list_eqb oq_eqb a b.
-Definition omat_eqb (a : list (list (option Q))) (b : list vec) : bool := list_eqb ovec_eqb a b.
+
+
 Definition all_some (a : list (option Q)) : bool :=
   forallb (fun o => match o with Some _ => true | None => false end) a.
 Definition some_vec (v : vec) : list (option Q) := map Some v.
